@@ -29,6 +29,8 @@ Section AlmPantr.
     mkTr (with_opts (tp_base TP) tol) (tp_tr_tol TP) (tp_thr_acc TP) (tp_thr_good TP) (tp_rf_rej TP) (tp_rf_acc TP) (tp_rf_good TP)
          (tp_init_radius TP) (tp_min_radius TP) (tp_ratio_new_step TP) (tp_upd_on_prox TP) (tp_disable_accel TP) (tp_ratio_approx TP).
 
+  (* ir_stop: ALMSolver::stop() sets ALM's own flag and the inner solver's flag in the same call, so the one oracle stop_req serves both:
+     the outer loop reads its flag after the inner solve, i.e. at the cumulative counters the solve hands on *)
   Definition tinner (w : counters) (i : nat) (x y Σ : list T) (tol : T) (errz : list T)
       : option (inner_res (T:=T) * list T * tresult (T:=T) * counters) :=
     let r := pantr (o_psi_grad_full Pb prov wm_supplied y Σ) (o_psi_yhat Pb prov y Σ) (o_grad_L Pb prov) (o_grad_psi Pb prov y Σ) Clb Cub l1
@@ -38,10 +40,12 @@ Section AlmPantr.
     match r with
     | TDone o =>
         Some ({| ir_status := alm_status_of (to_status o); ir_eps := to_eps o; ir_err := Some (to_errz o);
-                 ir_y := Some (to_y o); ir_iters := to_iterations o; ir_oot := outer_oot i |},
+                 ir_y := Some (to_y o); ir_iters := to_iterations o; ir_oot := outer_oot i;
+                 ir_stop := stop_req (cadd w (to_cnt o)) |},
               to_x o, r, cadd w (to_cnt o))
     | TNotFiniteL L =>
-        Some ({| ir_status := NotFinite; ir_eps := ninf; ir_err := None; ir_y := None; ir_iters := 0; ir_oot := outer_oot i |},
+        Some ({| ir_status := NotFinite; ir_eps := ninf; ir_err := None; ir_y := None; ir_iters := 0; ir_oot := outer_oot i;
+                 ir_stop := stop_req (cadd w (snd (init_L (o_psi_grad_full Pb prov wm_supplied y Σ) (o_grad_psi Pb prov y Σ) (with_opts (tp_base TP) tol) x))) |},
               x, r, cadd w (snd (init_L (o_psi_grad_full Pb prov wm_supplied y Σ) (o_grad_psi Pb prov y Σ) (with_opts (tp_base TP) tol) x)))
     | TOutOfFuel => None
     end.
